@@ -48,11 +48,17 @@ def gen_case(r, cid, source, chain, n=None, term=None, nt=None, cs=None):
         ";".join(ops), term, k3.AVAIL, ",".join(map(str, sched)) if sched else "-")
 
 
-def run_isolated(binpath, lines, batch=40, tmo_batch=600, tmo_single=60):
-    """runs the canary harness in child processes; a batch that dies or hangs is re-run case by case"""
+def run_isolated(binpath, lines, batch=40, tmo_batch=600, tmo_single=60, max_timeouts=None):
+    """runs the canary harness in child processes; a batch that dies or hangs is re-run case by case;
+    after [max_timeouts] single-case timeouts the remaining cases are skipped (the hang is established)"""
     out = [None] * len(lines)
+    n_tmo = 0
     for b in range(0, len(lines), batch):
         chunk = lines[b:b + batch]
+        if max_timeouts is not None and n_tmo >= max_timeouts:
+            for k in range(len(chunk)):
+                out[b + k] = "<skipped>"
+            continue
         try:
             p = subprocess.run([binpath, "tok"], input="\n".join(chunk) + "\n", stdout=subprocess.PIPE,
                                stderr=subprocess.PIPE, text=True, errors="replace", env=ENV, timeout=tmo_batch)
@@ -74,6 +80,11 @@ def run_isolated(binpath, lines, batch=40, tmo_batch=600, tmo_single=60):
                     out[b + k] = g[0]
             except subprocess.TimeoutExpired:
                 out[b + k] = "<timeout>"
+                n_tmo += 1
+                if max_timeouts is not None and n_tmo >= max_timeouts:
+                    for k2 in range(k + 1, len(chunk)):
+                        out[b + k2] = "<skipped>"
+                    break
     return out
 
 
@@ -184,8 +195,10 @@ def run_k6(tier, seed):
             rcases.append(c + " rpanic=" + rp + (" delay=200" if n_in <= 40 else " delay=20"))
     res["reduce_panic_cases"] = len(rcases)
     res["reduce_panic_fired"] = 0
-    rimpl = run_isolated(bins["k3"], rcases, batch=40, tmo_batch=40, tmo_single=10)
+    rimpl = run_isolated(bins["k3"], rcases, batch=40, tmo_batch=90, tmo_single=30, max_timeouts=3)
     for c, a in zip(rcases, rimpl):
+        if a == "<skipped>":
+            continue
         res["total"] += 1
         if a is None or a.startswith("<"):
             res["c14"].append({"case": c, "what": "the reduce operator panicked and the call hung or the process aborted instead of panicking",
